@@ -1,7 +1,8 @@
-\* C39 leg A quick: bytes {1,2}, sub-chunk data length 1; 3^5 patterns x 5 types
+\* C39 leg A quick: Base 2 (lengths 1 = one digit, 2 and 3 = two digits), one byte value; 4^5 patterns x 5 types
 SPECIFICATION Spec
-CONSTANTS Bytes = {1, 2}
-          MaxLen = 1
+CONSTANTS Base = 2
+          Bytes = {1}
+          Lens = {1, 2, 3}
 INVARIANT C39_GetMatchesExpected
 PROPERTY C39_Terminates
 CHECK_DEADLOCK FALSE
